@@ -324,6 +324,13 @@ def f_nodup(ex, st, e):
                         patterns=[z3.MultiPattern(At(s, i), At(s, j))]))
 
 
+def f_nodup_p(ex, st, e):
+    """nodup_p(lst): the predicate NoDup of the prelude (structural axioms: Append1 / RemoveAt / positions); use it for lists that are
+    built and taken apart element by element"""
+    s, v = _seqarg(ex, st, e.args[0])
+    return _b(smt.NoDup(s))
+
+
 def f_sum_r(ex, st, e):
     s, v = _seqarg(ex, st, e.args[0])
     if False:
@@ -485,7 +492,7 @@ SPEC_FUNCS = {
     "forall_in": f_forall_in, "forall_member": f_forall_member, "exists_in": f_exists_in, "forall_idx": f_forall_idx,
     "forall_obj": f_forall_obj, "exists_obj": f_exists_obj,
     "S": f_S, "append1": f_append1, "remove_at": f_remove_at, "remove1": f_remove1, "take": f_take,
-    "drop": f_drop, "concat": f_concat, "index_of": f_index_of, "nodup": f_nodup,
+    "drop": f_drop, "concat": f_concat, "index_of": f_index_of, "nodup": f_nodup, "nodup_p": f_nodup_p,
     "sum_r": f_sum_r, "sum_i": f_sum_i, "psum": f_psum, "psum_i": f_psum_i,
     "is_int": _valpred(lambda v: Val.is_intv(v)), "is_intlike": _valpred(smt.isint), "is_real": _valpred(lambda v: Val.is_realv(v)),
     "is_number": _valpred(smt.is_number), "is_none": _valpred(lambda v: Val.is_none(v)),
